@@ -111,3 +111,27 @@ def gen_block(rng, nfields=None, tiny=False, small_tail=False, coinbase=None):
         fields.append(comp)
     assert len(fields) == nfields
     return _finish(fields, nfields, cb_hash)
+
+
+_FIXTURES = None
+
+
+def brothers_sharing_hash_prefix(rng):
+    """two distinct headers whose block hashes share their first four bytes (committed
+    fixture, found by a birthday search: about 2^16 headers per pair), in random order"""
+    global _FIXTURES
+    import os
+    import json
+    if _FIXTURES is None:
+        with open(os.path.join(os.path.dirname(__file__), "fixtures.json")) as f:
+            _FIXTURES = json.load(f)["brothers_sharing_4_hash_bytes"]
+    fx = rng.choice(_FIXTURES)
+    pair = rng.choice(fx["extra_data_pairs"])
+    out = []
+    for v in pair:
+        fields = [bytes.fromhex(x) for x in fx["fields"]]
+        fields[12] = bytes.fromhex(v)
+        out.append(_finish(fields, fx["nfields"], bytes.fromhex(fx["cb_hash"])))
+    assert out[0]["hash"][:4] == out[1]["hash"][:4] and out[0]["hash"] != out[1]["hash"]
+    rng.shuffle(out)
+    return out
